@@ -118,18 +118,25 @@ def must_open(R, C: Ctx, paths, expect, sig, what, corr):
 # ---------------------------------------------------------------------------------------------
 # single corruptions; each returns the list of paths to open (working copy is reset by the caller)
 # ---------------------------------------------------------------------------------------------
+def keep_times(p, st):
+    """silent corruption (bit rot): size and time stamps of the file stay as they were"""
+    os.utime(p, ns=(st.st_atime_ns, st.st_mtime_ns))
+
+
 def apply_corruption(C: Ctx, corr):
     k = corr[0]
     W = C.work
     if k == "flip":
         _, i, off, x = corr
         p = C.paths[i]
+        st = os.stat(p)
         fd = os.open(p, os.O_RDWR)
         try:
             b = os.pread(fd, 1, off)
             os.pwrite(fd, bytes([b[0] ^ x]), off)
         finally:
             os.close(fd)
+        keep_times(p, st)
         C.dirty.add(p.name)
         return C.paths
     if k == "trunc":
@@ -181,7 +188,10 @@ def apply_corruption(C: Ctx, corr):
         if k == "mf-flip":
             b = bytearray(data)
             b[corr[1]] ^= corr[2]
-            m.write_bytes(bytes(b))
+            st = os.stat(m)
+            with open(m, "r+b") as fh:  # in place: same inode, same size
+                fh.write(bytes(b))
+            keep_times(m, st)
         elif k == "mf-trunc":
             m.write_bytes(data[: len(data) - corr[1]])
         elif k == "mf-extend":
@@ -295,12 +305,14 @@ def run_record(R: Recorder, cls_key, hidx, commit_last, tier, rnd, t_end, stats,
                 where = "first-payload-byte" if off == UB else ("last-byte" if off == size - 1 else "interior")
                 for x in ((0xFF,) if tier == "quick" or off % 2 else (0x01,)):
                     corr = ["flip", i, off, x]
+                    st = os.stat(p)
                     fd = os.open(p, os.O_RDWR)
                     try:
                         b = os.pread(fd, 1, off)
                         os.pwrite(fd, bytes([b[0] ^ x]), off)
                         os.close(fd)
                         fd = None
+                        keep_times(p, st)
                         must_raise(R, C, C.paths, f"{tag}:flip:{C.pos(i)}:{where}:accepted", f"payload byte {off} of container {i} ({size} bytes) xor 0x{x:02x}", corr, FN_OPEN + FN_HASH)
                     finally:
                         if fd is not None:
@@ -308,6 +320,7 @@ def run_record(R: Recorder, cls_key, hidx, commit_last, tier, rnd, t_end, stats,
                         fd2 = os.open(p, os.O_RDWR)
                         os.pwrite(fd2, b, off)
                         os.close(fd2)
+                        keep_times(p, st)
                     stats["flips"] += 1
                 R.case((cls_key, hidx, commit_last, "flip", i, off), nontrivial=True)
             assert p.read_bytes() == C.pristine[p.name]
